@@ -22,7 +22,7 @@ func init() {
 	reg(&PropSpec{
 		ID: "C06", Prefix: "vh_C06_", Repeat: 40,
 		Quick:    Tier{Params: map[string]int{"exts": 1, "extras": 1, "name_len": 1, "sizes": 1, "any_shapes": 2, "vary": 0, "props": 2, "ref_len": 3}},
-		Thorough: Tier{Params: map[string]int{"exts": 2, "extras": 2, "name_len": 2, "sizes": 2, "any_shapes": 2, "vary": 1, "vary_points": 60, "vary_alts": 4, "props": 2, "ref_len": 4}},
+		Thorough: Tier{Params: map[string]int{"exts": 2, "extras": 1, "name_len": 1, "sizes": 1, "any_shapes": 2, "vary": 1, "vary_points": 60, "vary_alts": 4, "props": 2, "ref_len": 4}},
 		Bounds: []string{
 			"vh_C06_nodup_<Kind>: values decoded from the symbolic normal-form documents of C01 (presence of every keyword symbolic); output must be valid JSON without repeated member names",
 			"vh_C06_builders: values built by AddExtension x2 (keys x-/X- + symbolic byte), SetProperty x2, RespondsWith x2 + default, AddHeader x2, AddExample",
